@@ -711,14 +711,18 @@ func init() {
 	// ---- time: a Time value is {wall:0, ext:unix seconds, loc:nil} ----
 	x["time.Now"] = func(fr *frame, args []value) value {
 		e := fr.i.eng
-		return mkTime(fr, SymInt{e.freshVar("wallclock"), types.Int64})
+		return structure{uint64(0), SymInt{e.freshVar("wallclock"), types.Int64}, localZone}
 	}
 	x["time.Since"] = func(fr *frame, args []value) value {
 		return SymInt{fr.i.eng.freshVar("elapsed"), types.Int64}
 	}
-	x["time.Unix"] = func(fr *frame, args []value) value { return mkTime(fr, args[0]) }
+	// time.Unix and time.Now return times in the host's local zone (time.Local): their calendar fields and formatted
+	// text depend on the machine the node runs on until .UTC() / .In(loc) is applied (C19, see hostZone)
+	x["time.Unix"] = func(fr *frame, args []value) value { return structure{uint64(0), args[0], localZone} }
 	x["(time.Time).Unix"] = func(fr *frame, args []value) value { return timeSec(args[0]) }
-	x["(time.Time).UTC"] = func(fr *frame, args []value) value { return args[0] }
+	x["(time.Time).UTC"] = func(fr *frame, args []value) value { return mkTime(fr, timeSec(args[0])) }
+	x["(time.Time).In"] = func(fr *frame, args []value) value { return mkTime(fr, timeSec(args[0])) }
+	x["(time.Time).Local"] = func(fr *frame, args []value) value { return structure{uint64(0), timeSec(args[0]), localZone} }
 	x["(time.Time).UnixNano"] = func(fr *frame, args []value) value {
 		return binop(fr.i.eng, token.MUL, types.Typ[types.Int64], timeSec(args[0]), int64(1000000000))
 	}
@@ -741,7 +745,7 @@ func init() {
 		if !ok || d%1000000000 != 0 {
 			panic(pathAbort{"time.Add with a symbolic or sub-second duration"})
 		}
-		return mkTime(fr, binop(fr.i.eng, token.ADD, types.Typ[types.Int64], timeSec(args[0]), d/1000000000))
+		return mkTimeLike(args[0], binop(fr.i.eng, token.ADD, types.Typ[types.Int64], timeSec(args[0]), d/1000000000))
 	}
 	x["(time.Time).Sub"] = func(fr *frame, args []value) value {
 		d := binop(fr.i.eng, token.SUB, types.Typ[types.Int64], timeSec(args[0]), timeSec(args[1]))
@@ -750,6 +754,7 @@ func init() {
 	// Format: real formatting for concrete times; for symbolic times an opaque token that is a function of
 	// the time term (equal terms give equal strings; calendar arithmetic on symbolic times is not modelled)
 	x["(time.Time).Format"] = func(fr *frame, args []value) value {
+		hostZone(fr, args[0], "Format")
 		switch s := timeSec(args[0]).(type) {
 		case int64:
 			return time.Unix(s, 0).UTC().Format(strOf(args[1]))
@@ -761,15 +766,16 @@ func init() {
 	x["(time.Time).AddDate"] = func(fr *frame, args []value) value {
 		y, m, d := args[1].(int), args[2].(int), args[3].(int)
 		if s, ok := timeSec(args[0]).(int64); ok {
-			return mkTime(fr, time.Unix(s, 0).UTC().AddDate(y, m, d).Unix())
+			return mkTimeLike(args[0], time.Unix(s, 0).UTC().AddDate(y, m, d).Unix())
 		}
 		if y != 0 || m != 0 {
 			panic(pathAbort{"time.AddDate with years/months on a symbolic time"})
 		}
-		return mkTime(fr, binop(fr.i.eng, token.ADD, types.Typ[types.Int64], timeSec(args[0]), int64(d)*86400))
+		return mkTimeLike(args[0], binop(fr.i.eng, token.ADD, types.Typ[types.Int64], timeSec(args[0]), int64(d)*86400))
 	}
 	// calendar functions: concrete times only (real Go semantics, UTC)
 	conc := func(fr *frame, v value, what string) time.Time {
+		hostZone(fr, v, what)
 		s, ok := timeSec(v).(int64)
 		if !ok {
 			panic(pathAbort{"calendar function time." + what + " on a symbolic time (called from " + chainOf(fr.caller, 2) + ")"})
@@ -807,6 +813,23 @@ func init() {
 
 func mkTime(fr *frame, sec value) value {
 	return structure{uint64(0), sec, (*value)(nil)}
+}
+
+// localZone marks a Time whose location is the host's time.Local
+var localZone = new(value)
+
+// mkTimeLike: a time derived from t (same location)
+func mkTimeLike(t value, sec value) value {
+	return structure{uint64(0), sec, t.(structure)[2]}
+}
+
+// hostZone records that a calendar field or formatted text of a time in the host's local zone was computed
+func hostZone(fr *frame, t value, what string) {
+	if st, ok := t.(structure); ok && len(st) == 3 {
+		if p, ok := st[2].(*value); ok && p == localZone && fr.i.eng != nil {
+			fr.i.eng.noteHostDep("time." + what + " of a time in the host's local zone (time.Unix / time.Now without .UTC()) in " + chainOf(fr.caller, 2))
+		}
+	}
 }
 
 func timeSec(v value) value {
